@@ -7,28 +7,20 @@
   `Lemmas/Stub.lean: names_inv`), all field lists, all `_required` / `_optional` / defaults / constants /
   `_additional_properties` declarations, and both values of the additional-properties default.
 
-  The current code violates the property in one region of the model (reproduced on the real code by the
-  `stub` suite and listed as a known finding):
-    * "inherited-additional-properties": with `additional_properties_default = False`, a class that
-      inherits `_additional_properties = True` without re-declaring it gets `**kw` in the stub while its
-      `__signature__` (built from the class's *own* dict) has no `**kwargs` (`inheritedAddlOn`).
-    * "inherited-additional-properties-off:signature-kwargs": with the default on, a class that inherits
-      `_additional_properties = False` without re-declaring it has `**kwargs` in `inspect.signature(cls)` (own
-      dict only) although its constructor rejects unknown keywords (`__setattr__` guard, inherited `getattr`);
-      the stub (correctly, w.r.t. what the constructor accepts) omits `**kw`, so stub and `__signature__`
-      disagree on the `**` clause (`inheritedAddlOff`; `C16_signature_statement`, `stub_sigkw_iff`,
-      `sig_kwargs_not_admitted_iff`).
-  Full statement: `C16_statement`; proved: names and default-iff-not-required agree for every hierarchy
-  unconditionally (`stub_names_agree`, `stub_required_agree`), `**kw` is characterised exactly (`stub_kw_iff`),
-  the statement holds outside exactly that region (`stub_params_agree_partial`; unconditionally for the shipped
-  default, `stub_params_agree_default_on`), fails inside it (`stub_kw_disagree`), with a kernel-checked
-  counterexample.
+  Full statement: `C16_statement` — a THEOREM (`C16_statement_holds`) since the repair of the findings
+  "inherited-additional-properties" / "inherited-additional-properties-off:signature-kwargs": `StructMeta.__new__` now
+  reads `_additional_properties` with `getattr` on the new class (inherited lookup), as `Structure.__setattr__` and the
+  stub generator always did, so the `**` clause of the stub, the `**kwargs` of `inspect.signature(cls)` and what the
+  constructor admits are one and the same for every hierarchy and both defaults (`stub_kw_iff`, `stub_sigkw_agree`,
+  `sig_kwargs_iff_admitted`); names and default-iff-not-required agree for every hierarchy (`stub_names_agree`,
+  `stub_required_agree`).  The former counterexamples are kept as kernel-evaluated `fixed_*` examples.
   History: until /repo commit 08ea09e a *required* `AnyOf[X, None]` field was rendered `Optional[X] = None`
   (finding "required-optional-default", fixed); `required_optional_fixed_example` is the former counterexample.
 -/
 import TypedpyModel.Lemmas.Stub
 import TypedpyModel.Lemmas.StubSort
 import TypedpyModel.Lemmas.StubText
+import TypedpyModel.Lemmas.StubLex
 import TypedpyModel.Lemmas.StubDefine
 namespace Typedpy.C16
 open Typedpy.Stub
@@ -62,7 +54,7 @@ def HelperAgrees (dflt : Bool) (c : ClassInfo) (h : Helper) : Prop :=
 /-- C16 (model part), full strength -/
 def C16_statement : Prop := ∀ (dflt : Bool) (c : ClassInfo), InitAgrees dflt c ∧ ∀ h, HelperAgrees dflt c h
 
-/-! ### the known-finding region (decidable) -/
+/-! ### the region of the two repaired findings (decidable; kept to name a regression) -/
 
 /-- default off, nothing declared by the class itself, `True` found further up the MRO -/
 def inheritedAddlOn (dflt : Bool) (c : ClassInfo) : Bool :=
@@ -140,93 +132,39 @@ theorem stub_default_iff (dflt apd : Bool) (c : ClassInfo) (n : String) :
 
 /-! ### `**kw` -/
 
-/-- exact characterisation of the stub's `**kw` -/
+/-- the stub's `**kw` is exactly "the constructor admits unknown keywords" — every hierarchy, both defaults -/
 theorem stub_kw_iff (dflt : Bool) (c : ClassInfo) :
-    (stubInit dflt dflt c).kw = (runtimeAdmitsExtra dflt c || inheritedAddlOn dflt c) := by
+    (stubInit dflt dflt c).kw = runtimeAdmitsExtra dflt c := by
   cases c with
   | mk d bases =>
-    simp only [stubInit, stubKw, runtimeAdmitsExtra, setattrAllows, inheritedAddlOn, runtimeSig, Stub.sigOf,
-      makeSignature, mro, addlLookup, ClassInfo.decl]
-    cases hd : d.addl with
-    | some b => cases b <;> simp
-    | none =>
-      cases dflt <;> cases hl : addlLookup (mroL bases) with
-      | none => simp
-      | some b => cases b <;> simp
+    simp [stubInit, stubKw, runtimeAdmitsExtra, setattrAllows, runtimeSig, Stub.sigOf, makeSignature, mro]
 
-theorem stub_kw_agree_partial (dflt : Bool) (c : ClassInfo) (hx : inheritedAddlOn dflt c = false) :
-    KwAgree dflt c (stubInit dflt dflt c).kw := by
-  unfold KwAgree
-  rw [stub_kw_iff, hx, Bool.or_false]
-
-theorem stub_kw_disagree (dflt : Bool) (c : ClassInfo) (hx : inheritedAddlOn dflt c = true) :
-    ¬ KwAgree dflt c (stubInit dflt dflt c).kw := by
-  unfold KwAgree
-  rw [stub_kw_iff, hx, Bool.or_true]
-  cases c with
-  | mk d bases =>
-    simp only [inheritedAddlOn, ClassInfo.decl, Bool.and_eq_true, Bool.not_eq_true', Option.isNone_iff_eq_none] at hx
-    simp [runtimeAdmitsExtra, runtimeSig, Stub.sigOf, makeSignature, hx.1.1, hx.1.2]
+theorem stub_kw_agree (dflt : Bool) (c : ClassInfo) : KwAgree dflt c (stubInit dflt dflt c).kw :=
+  stub_kw_iff dflt c
 
 /-! ### `**kw` vs the `**kwargs` of `__signature__` -/
 
-/-- exact characterisation: stub `**kw` and signature `**kwargs` differ exactly when the flag is only inherited
-    and differs from the default -/
-theorem stub_sigkw_iff (dflt : Bool) (c : ClassInfo) :
-    ((stubInit dflt dflt c).kw == (runtimeSig dflt c).kw) = !(inheritedAddlOn dflt c || inheritedAddlOff dflt c) := by
+/-- `inspect.signature(cls)` has `**kwargs` exactly when the constructor admits unknown keywords -/
+theorem sig_kwargs_iff_admitted (dflt : Bool) (c : ClassInfo) :
+    (runtimeSig dflt c).kw = runtimeAdmitsExtra dflt c := by
   cases c with
   | mk d bases =>
-    simp only [stubInit, stubKw, inheritedAddlOn, inheritedAddlOff, runtimeSig, Stub.sigOf,
-      makeSignature, mro, addlLookup, ClassInfo.decl]
-    cases hd : d.addl with
-    | some b => cases b <;> cases dflt <;> simp
-    | none =>
-      cases dflt <;> cases hl : addlLookup (mroL bases) with
-      | none => simp
-      | some b => cases b <;> simp
+    simp [runtimeAdmitsExtra, setattrAllows, runtimeSig, Stub.sigOf, makeSignature, mro]
 
-/-- the signature advertises `**kwargs` that the constructor rejects exactly in the `inheritedAddlOff` region -/
-theorem sig_kwargs_not_admitted_iff (dflt : Bool) (c : ClassInfo) :
-    ((runtimeSig dflt c).kw && !runtimeAdmitsExtra dflt c) = inheritedAddlOff dflt c := by
+/-- the `**` clause of the stub equals the `**kwargs` of `inspect.signature(cls)` — every hierarchy -/
+theorem stub_sigkw_agree (dflt : Bool) (c : ClassInfo) : SigKwAgree dflt c := by
+  unfold SigKwAgree
+  rw [stub_kw_iff, sig_kwargs_iff_admitted]
+
+/-- with a stub generated under another `additional_properties_default` than the runtime's (`apd ≠ dflt`) the `**`
+    clause still agrees whenever some class of the MRO declares the flag; otherwise it is `apd` against `dflt` -/
+theorem stub_kw_apd_iff (dflt apd : Bool) (c : ClassInfo) :
+    (stubInit dflt apd c).kw =
+      (match addlLookup (mro c) with | some _ => runtimeAdmitsExtra dflt c | none => apd) := by
   cases c with
   | mk d bases =>
-    simp only [runtimeAdmitsExtra, setattrAllows, inheritedAddlOff, runtimeSig, Stub.sigOf,
-      makeSignature, mro, addlLookup, ClassInfo.decl]
-    cases hd : d.addl with
-    | some b => cases b <;> cases dflt <;> simp
-    | none =>
-      cases dflt <;> cases hl : addlLookup (mroL bases) with
-      | none => simp
-      | some b => cases b <;> simp
-
-theorem stub_sigkw_agree_partial (dflt : Bool) (c : ClassInfo)
-    (h1 : inheritedAddlOn dflt c = false) (h2 : inheritedAddlOff dflt c = false) : SigKwAgree dflt c := by
-  have := stub_sigkw_iff dflt c
-  rw [h1, h2] at this
-  simpa [SigKwAgree] using this
-
-theorem stub_sigkw_disagree (dflt : Bool) (c : ClassInfo)
-    (h : (inheritedAddlOn dflt c || inheritedAddlOff dflt c) = true) : ¬ SigKwAgree dflt c := by
-  intro hagree
-  have := stub_sigkw_iff dflt c
-  rw [h] at this
-  unfold SigKwAgree at hagree
-  simp [hagree] at this
-
-/-- in the `inheritedAddlOff` region it is the stub that matches what the constructor accepts -/
-theorem stub_kw_matches_constructor_in_off_region (dflt : Bool) (c : ClassInfo)
-    (h : inheritedAddlOff dflt c = true) :
-    (stubInit dflt dflt c).kw = runtimeAdmitsExtra dflt c ∧ (runtimeSig dflt c).kw = true ∧
-      runtimeAdmitsExtra dflt c = false := by
-  have hon : inheritedAddlOn dflt c = false := by
-    cases dflt <;> simp_all [inheritedAddlOn, inheritedAddlOff]
-  have h1 := stub_kw_iff dflt c
-  have h2 := sig_kwargs_not_admitted_iff dflt c
-  rw [hon, Bool.or_false] at h1
-  rw [h] at h2
-  refine ⟨h1, ?_, ?_⟩
-  · cases hk : (runtimeSig dflt c).kw <;> simp_all
-  · cases ha : runtimeAdmitsExtra dflt c <;> simp_all
+    simp only [stubInit, stubKw, runtimeAdmitsExtra, setattrAllows, runtimeSig, Stub.sigOf, makeSignature, mro]
+    cases addlLookup (d :: mroL bases) <;> simp
 
 /-! ### helper methods -/
 
@@ -246,16 +184,16 @@ theorem helper_fields_agree (dflt apd : Bool) (c : ClassInfo) (h : Helper) :
     cases hq : q.hasDefault <;> simp
   · simp [stubHelperFields, stubInit, List.map_map, Function.comp_def]
 
-/-! ### the property outside the known-finding region -/
+/-! ### the property, full strength -/
 
-theorem stub_params_agree_partial (dflt : Bool) (c : ClassInfo) (h2 : inheritedAddlOn dflt c = false) :
-    InitAgrees dflt c ∧ ∀ h, HelperAgrees dflt c h :=
-  ⟨⟨stub_names_agree dflt dflt c, stub_required_agree dflt dflt c, stub_kw_agree_partial dflt c h2⟩,
-   fun h => ⟨helper_fields_agree dflt dflt c h, stub_kw_agree_partial dflt c h2⟩⟩
+theorem stub_params_agree (dflt : Bool) (c : ClassInfo) : InitAgrees dflt c ∧ ∀ h, HelperAgrees dflt c h :=
+  ⟨⟨stub_names_agree dflt dflt c, stub_required_agree dflt dflt c, stub_kw_agree dflt c⟩,
+   fun h => ⟨helper_fields_agree dflt dflt c h, stub_kw_agree dflt c⟩⟩
 
-/-- with the shipped default (`additional_properties_default = True`) the property holds for every hierarchy -/
-theorem stub_params_agree_default_on (c : ClassInfo) : InitAgrees true c ∧ ∀ h, HelperAgrees true c h :=
-  stub_params_agree_partial true c (by simp [inheritedAddlOn])
+/-- C16 (model part) holds: every hierarchy, both defaults -/
+theorem C16_statement_holds : C16_statement := fun dflt c => stub_params_agree dflt c
+
+theorem C16_signature_statement_holds : C16_signature_statement := fun dflt c => stub_sigkw_agree dflt c
 
 /-! ### ordering -/
 
@@ -301,7 +239,7 @@ theorem stub_set_invariant (xs ys : List (String × String)) (h : ∀ kv, kv ∈
 theorem stub_imports_sorted (xs : List (String × String)) : (renderImports xs).Pairwise (· < ·) :=
   sortU_sorted _
 
-/-! ### kernel-checked counterexamples (the inputs replayed on the real code by the `stub` suite) -/
+/-! ### kernel-checked former counterexamples (the inputs replayed on the real code by the `stub` suite) -/
 
 /-- `class K(Structure): e: AnyOf[Integer, None]; s: String` — `e` is required.  The counterexample of the
     fixed finding "required-optional-default": the stub now keeps `e` mandatory. -/
@@ -314,32 +252,29 @@ theorem required_optional_fixed_example :
   decide
 
 /-- `class P(Structure): a: String; _additional_properties = True` / `class Q(P): b: String`,
-    `additional_properties_default = False` -/
+    `additional_properties_default = False` — the counterexample of the repaired finding
+    "inherited-additional-properties": stub, `__signature__` and constructor now all admit extra keywords -/
 def ceInheritedAddl : ClassInfo :=
   .mk { name := "Q", fields := [{ name := "b" }] }
     [.mk { name := "P", fields := [{ name := "a" }], addl := some true } []]
 
-theorem inherited_addl_counterexample :
-    (stubInit false false ceInheritedAddl).kw = true ∧ runtimeAdmitsExtra false ceInheritedAddl = false ∧
-    ¬ KwAgree false ceInheritedAddl (stubInit false false ceInheritedAddl).kw := by
-  refine ⟨by decide, by decide, stub_kw_disagree false _ (by decide)⟩
+theorem fixed_inherited_addl_example :
+    inheritedAddlOn false ceInheritedAddl = true ∧
+    (stubInit false false ceInheritedAddl).kw = true ∧ (runtimeSig false ceInheritedAddl).kw = true ∧
+    runtimeAdmitsExtra false ceInheritedAddl = true := by
+  decide
 
-/-- `class P(Structure): a: String; _additional_properties = False` / `class Q(P): b: String`, shipped default -/
+/-- `class P(Structure): a: String; _additional_properties = False` / `class Q(P): b: String`, shipped default —
+    the counterexample of the repaired finding "inherited-additional-properties-off:signature-kwargs" -/
 def ceInheritedAddlOff : ClassInfo :=
   .mk { name := "Q", fields := [{ name := "b" }] }
     [.mk { name := "P", fields := [{ name := "a" }], addl := some false } []]
 
-theorem inherited_addl_off_counterexample :
-    (stubInit true true ceInheritedAddlOff).kw = false ∧ (runtimeSig true ceInheritedAddlOff).kw = true ∧
-    runtimeAdmitsExtra true ceInheritedAddlOff = false ∧ ¬ SigKwAgree true ceInheritedAddlOff := by
-  refine ⟨by decide, by decide, by decide, stub_sigkw_disagree true _ (by decide)⟩
-
-theorem C16_signature_statement_false : ¬ C16_signature_statement := fun h =>
-  inherited_addl_off_counterexample.2.2.2 (h true ceInheritedAddlOff)
-
-/-- the full-strength statement is false of the model (as it is of the pinned code) -/
-theorem C16_statement_false : ¬ C16_statement := fun h =>
-  inherited_addl_counterexample.2.2 (h false ceInheritedAddl).1.2.2
+theorem fixed_inherited_addl_off_example :
+    inheritedAddlOff true ceInheritedAddlOff = true ∧
+    (stubInit true true ceInheritedAddlOff).kw = false ∧ (runtimeSig true ceInheritedAddlOff).kw = false ∧
+    runtimeAdmitsExtra true ceInheritedAddlOff = false := by
+  decide
 
 /-! ### non-vacuity -/
 
@@ -355,7 +290,7 @@ def exHierarchy : ClassInfo :=
 
 theorem stub_params_agree_example :
     (stubInit true true exHierarchy).params = [⟨"m", false⟩, ⟨"a", false⟩, ⟨"o", true⟩, ⟨"c", true⟩, ⟨"z", true⟩] ∧
-    (stubInit true true exHierarchy).kw = false ∧ (runtimeSig true exHierarchy).kw = true ∧
+    (stubInit true true exHierarchy).kw = false ∧ (runtimeSig true exHierarchy).kw = false ∧
     runtimeAdmitsExtra true exHierarchy = false ∧
     (runtimeSig true exHierarchy).params = [⟨"a", false⟩, ⟨"m", false⟩, ⟨"o", true⟩, ⟨"c", true⟩, ⟨"z", true⟩] ∧
     inheritedAddlOn true exHierarchy = false ∧ inheritedAddlOff true exHierarchy = true ∧
@@ -491,6 +426,42 @@ theorem parse_rejects_examples :
       some ⟨"f", [⟨"a", .po, false⟩, ⟨"b", .pk, true⟩, ⟨"args", .va, false⟩, ⟨"c", .ko, false⟩, ⟨"kw", .vk, false⟩]⟩ := by
   decide
 
+/-! ### the character level -/
+
+/-- printing any token sequence whose names are identifier-shaped (one blank after each token) and lexing the
+    characters gives the tokens back: every token-level acceptance theorem above is a theorem about text -/
+theorem lex_render_roundtrip (ts : List Tok) (h : ∀ t ∈ ts, tokLexOk t = true) :
+    lexPy (renderText ts) = some ts :=
+  c16_lexPy_render ts h
+
+/-- the TEXT of the generated `__init__` of every class of every hierarchy is lexed and parsed into exactly the
+    modelled parameter list -/
+theorem stub_init_text_accepted (dflt apd : Bool) (c : ClassInfo) (anns : String → Ann)
+    (h : textDomain anns (stubInit dflt apd c).params = true) :
+    (lexPy (renderText (initToks anns (stubInit dflt apd c)))).bind parseDef =
+      some ⟨"__init__", ⟨"self", .pk, false⟩ ::
+        ((stubInit dflt apd c).params.map pkInfo ++ kwInfos (stubInit dflt apd c).kw)⟩ := by
+  rw [c16_lexPy_render _ (c16_lexOk_initToks anns _ h)]
+  exact stub_init_text_parses dflt apd c anns h
+
+/-- the TEXT of the three generated helper methods, lexed and parsed -/
+theorem stub_helper_text_accepted (dflt apd : Bool) (c : ClassInfo) (anns : String → Ann) (hk : Helper)
+    (h : textDomain anns (stubInit dflt apd c).params = true) :
+    (lexPy (renderText (helperToks anns hk (stubInit dflt apd c)))).bind parseDef =
+      some ⟨helperName hk, helperLeadInfos hk ++
+        ((stubInit dflt apd c).params.map (helperInfo hk) ++ kwInfos (stubInit dflt apd c).kw)⟩ := by
+  rw [c16_lexPy_render _ (c16_lexOk_helperToks anns hk _ h)]
+  exact stub_helper_text_parses dflt apd c anns hk h
+
+/-- the TEXT of every re-rendered method / function header: print a legal signature, lex, parse — the same
+    names, kinds and default flags -/
+theorem stub_method_text_accepted (f : String) (ps : List RParam) (ret : Option Ann) (hf : identOk f = true)
+    (hne : ps ≠ []) (hv : validSig ps = true) (hok : ∀ p ∈ ps, rparamOk p = true ∧ noVarDefault p = true)
+    (hret : optWf ret = true) :
+    (lexPy (renderText (methodToks f ps ret))).bind parseDef = some ⟨f, ps.map RParam.info⟩ := by
+  rw [c16_lexPy_render _ (c16_lexOk_methodToks f ps ret hf (fun p hp => (hok p hp).1) hret)]
+  exact stub_method_text_roundtrip f ps ret hf hne hv hok hret
+
 /-! ### a stub generated under another `additional_properties_default` than the runtime's (`apd ≠ dflt`) -/
 
 /-- when some class of the MRO declares `_additional_properties`, the `**` clause does not depend on the default the
@@ -541,17 +512,17 @@ theorem stubD_required_agree (apd : Bool) (w : World) (src : ClassSrc) (n : Stri
     (⟨n, false⟩ : Param) ∈ (stubInitD apd w src).params ↔ n ∈ (Typedpy.sigOf w src).req :=
   c16_stubD_required w src n hcov hk
 
-/-- the `**` clause over Define's worlds: same exact characterisation as `stub_kw_iff` -/
+/-- the `**` clause over Define's worlds: stub = constructor = `__signature__`, every world -/
 theorem stubD_kw_iff (dflt : Bool) (w : World) (src : ClassSrc) :
-    (stubInitD dflt w src).kw = (admitsD dflt w src || inheritedOnD dflt w src) :=
+    (stubInitD dflt w src).kw = admitsD dflt w src :=
   c16_stubD_kw_iff dflt w src
 
-theorem stubD_sigkw_iff (dflt : Bool) (w : World) (src : ClassSrc) :
-    ((stubInitD dflt w src).kw == sigKwD dflt src) = !(inheritedOnD dflt w src || inheritedOffD dflt w src) :=
-  c16_stubD_sigkw_iff dflt w src
+theorem stubD_sigkw_agree (dflt : Bool) (w : World) (src : ClassSrc) :
+    (stubInitD dflt w src).kw = sigKwD dflt w src :=
+  c16_stubD_sigkw dflt w src
 
-/-- with the shipped default the `**kwargs` compared above is literally Define's `sig.kwargs` -/
-theorem stubD_sigkw_is_define (w : World) (src : ClassSrc) : sigKwD true src = (build w src).sig.kwargs := rfl
+/-- with the shipped default the `**kwargs` compared above is literally the `kwargs` of Define's `make_signature` -/
+theorem stubD_sigkw_is_define (w : World) (src : ClassSrc) : sigKwD true w src = (build w src).sig.kwargs := rfl
 
 theorem stubD_mandatory_first (apd : Bool) (w : World) (src : ClassSrc) :
     mandatoryFirst (stubInitD apd w src).params = true := by
@@ -580,9 +551,9 @@ def defAll : World → List ClassSrc → World
   | w, s :: rest => defAll (w.add (build w s)) rest
 
 /-- `class A: x, a; _optional = ['x']` / `class B(A): b` / `class C(A): x (required again), c = default;
-    _additional_properties = False` / `class D(B, C): d` — a benign diamond: MRO `D B C A` (C3); `get_base_info` takes
-    `x` from the first base that has it (`B`: optional); stub and signature agree on names and defaults; the `**`
-    clause is in the `inheritedAddlOff` region -/
+    _additional_properties = False` / `class D(B, C): d` — a benign diamond: MRO `D B C A` (C3); `get_base_info` finds `x` optional in `B`'s signature and required in `C`'s: the later,
+    stricter base wins (fix d18be04); stub and signature agree on names, defaults and the `**` clause
+    (`_additional_properties = False` inherited from `C`, fix 5f45702) -/
 def dmA : ClassSrc := { name := "A", bases := ["Structure"], entries := [dFld "x", dFld "a"], optional := ["x"] }
 def dmB : ClassSrc := { name := "B", bases := ["A"], entries := [dFld "b"] }
 def dmC : ClassSrc := { name := "C", bases := ["A"], entries := [dFld "x", dFld "c" true], addl := some false }
@@ -591,10 +562,11 @@ def dmW : World := defAll World.init [dmA, dmB, dmC]
 
 theorem stubD_diamond_example :
     (build dmW dmD).mro = ["D", "B", "C", "A", "Structure"] ∧
-    (stubInitD true dmW dmD).params = [⟨"a", false⟩, ⟨"b", false⟩, ⟨"d", false⟩, ⟨"x", true⟩, ⟨"c", true⟩] ∧
-    (Typedpy.sigOf dmW dmD).req = ["a", "b", "d"] ∧ (Typedpy.sigOf dmW dmD).opt = ["x", "c"] ∧
+    (stubInitD true dmW dmD).params = [⟨"x", false⟩, ⟨"a", false⟩, ⟨"b", false⟩, ⟨"d", false⟩, ⟨"c", true⟩] ∧
+    (Typedpy.sigOf dmW dmD).req = ["a", "b", "x", "d"] ∧ (Typedpy.sigOf dmW dmD).opt = ["c"] ∧
     namesCovered dmW dmD = true ∧
-    (stubInitD true dmW dmD).kw = false ∧ sigKwD true dmD = true ∧ inheritedOffD true dmW dmD = true := by
+    (stubInitD true dmW dmD).kw = false ∧ sigKwD true dmW dmD = false ∧ (Typedpy.sigOf dmW dmD).kwargs = false ∧
+    inheritedOffD true dmW dmD = true := by
   decide
 
 /-- `class Y: n = Constant(3), y` / `class P(Y): p` / `class Z(Y): n: String, z` / `class B(P, Z): b` /
